@@ -68,6 +68,18 @@ def apply_op(cache, op):
     if kind == 'update':
         cache.update([tuple(p) for p in op[1]])
         return None
+    if kind == 'updated':        # mapping argument: the `E.keys()` branch of update()
+        cache.update(dict((k, v) for k, v in op[1]))
+        return None
+    if kind == 'updatec':        # another (thread-private) LRU as argument: keys() + __getitem__ of that cache
+        other = type(cache)(max_size=len(op[1]) + 1)
+        for k, v in op[1]:
+            other[k] = v
+        cache.update(other)
+        return None
+    if kind == 'copyp':          # copy(), then everything observable about the copy: items in dict order, class,
+        c2 = cache.copy()        # capacity, and its eviction order (probed on the private copy)
+        return [canon(list(c2.items())), type(c2).__name__, c2.max_size, probe_order(c2, c2.max_size)]
     if kind == 'popitem':
         return canon(cache.popitem())
     if kind == 'clear':
@@ -572,31 +584,19 @@ class C03(Property):
     def rand_op(self, rng, on_miss):
         k = rng.choice(self.KEYS)
         r = rng.random()
-        if r < 0.30:
-            return ['set', k, rng.randint(0, 9)]
-        if r < 0.42:
-            return ['get', k]
-        if r < 0.52:
-            return ['getd', k]
-        if r < 0.58:
-            return ['del', k]
-        if r < 0.64:
-            return ['popd', k]
-        if r < 0.70:
-            return ['setdefault', k, rng.randint(0, 9)]
-        if r < 0.76:
-            return ['update', [[rng.choice(self.KEYS), rng.randint(0, 9)] for _ in range(rng.randint(1, 3))]]
-        if r < 0.80:
-            return ['popitem']
-        if r < 0.83:
-            return ['clear']
-        if r < 0.87:
-            return ['copy']
-        if r < 0.92:
-            return ['len']
-        if r < 0.97:
-            return ['contains', k]
-        return ['eq', [[rng.choice(self.KEYS), rng.randint(0, 9)]]]
+        pairs = [[rng.choice(self.KEYS), rng.randint(0, 9)] for _ in range(rng.randint(1, 3))]
+        table = [(0.26, ['set', k, rng.randint(0, 9)]), (0.10, ['get', k]), (0.09, ['getd', k]), (0.06, ['del', k]),
+                 (0.05, ['popd', k]), (0.02, ['pop', k]), (0.07, ['setdefault', k, rng.randint(0, 9)]),
+                 (0.04, ['update', pairs]), (0.03, ['updated', pairs]), (0.03, ['updatec', pairs]),
+                 (0.02, ['ior', pairs]), (0.04, ['popitem']), (0.03, ['clear']), (0.03, ['copy']),
+                 (0.03, ['copyp']), (0.03, ['len']), (0.03, ['contains', k]), (0.01, ['keys']),
+                 (0.02, ['eq', pairs[:1]]), (0.01, ['ne', pairs[:1]])]
+        acc = 0.0
+        for w, op in table:
+            acc += w
+            if r < acc:
+                return op
+        return ['set', k, 0]
 
     def rand_programs(self, rng, nthreads, maxops):
         cls = rng.choice(['LRI', 'LRU'])
@@ -618,12 +618,25 @@ class C03(Property):
         {'cls': 'LRU', 'max': 2, 'on_miss': False, 'init': [[1, 0], [2, 0]], 'progs': [[['copy']], [['set', 3, 1], ['del', 2]]]},
         {'cls': 'LRI', 'max': 2, 'on_miss': False, 'init': [[1, 0]], 'progs': [[['setdefault', 2, 5]], [['setdefault', 2, 6]], [['popitem']]]},
         {'cls': 'LRU', 'max': 2, 'on_miss': False, 'init': [[1, 0], [2, 0]], 'progs': [[['clear']], [['set', 3, 1]]]},
+        # update() fed from another cache / a mapping while a second thread deletes and re-inserts
+        {'cls': 'LRU', 'max': 2, 'on_miss': False, 'init': [[1, 0], [2, 0]], 'progs': [[['updatec', [[3, 1], [1, 5]]]], [['del', 1], ['set', 4, 2]]]},
+        {'cls': 'LRI', 'max': 2, 'on_miss': False, 'init': [[1, 0]], 'progs': [[['updated', [[2, 1], [3, 1]]]], [['ior', [[4, 2]]]]]},
+        # setdefault on a cache with on_miss (nested __getitem__ -> on_miss -> __setitem__) vs eviction
+        {'cls': 'LRU', 'max': 2, 'on_miss': True, 'init': [[1, 0], [2, 0]], 'progs': [[['setdefault', 3, 5]], [['set', 4, 1], ['get', 1]]]},
+        {'cls': 'LRI', 'max': 1, 'on_miss': True, 'init': [[1, 0]], 'progs': [[['getd', 2]], [['setdefault', 3, 1]]]},
+        # copy() (items, dict order, eviction order of the copy) while the source is mutated
+        {'cls': 'LRU', 'max': 3, 'on_miss': False, 'init': [[1, 0], [2, 0], [3, 0]], 'progs': [[['copyp']], [['get', 1], ['set', 4, 1]]]},
+        {'cls': 'LRI', 'max': 2, 'on_miss': False, 'init': [[1, 0], [2, 0]], 'progs': [[['copyp']], [['pop', 1], ['set', 3, 3]]]},
+        # three threads
+        {'cls': 'LRU', 'max': 2, 'on_miss': False, 'init': [[1, 0], [2, 0]], 'progs': [[['set', 3, 1]], [['get', 1]], [['del', 2]]]},
+        {'cls': 'LRI', 'max': 2, 'on_miss': True, 'init': [[1, 0]], 'progs': [[['get', 2]], [['set', 3, 1]], [['popitem']]]},
+        {'cls': 'LRU', 'max': 1, 'on_miss': False, 'init': [[1, 0]], 'progs': [[['get', 1]], [['set', 2, 2]], [['setdefault', 1, 4]]]},
         # unlocked inherited readers racing with an evicting insert (known finding C03-readers)
         {'cls': 'LRU', 'max': 2, 'on_miss': False, 'init': [[1, 0], [2, 0]], 'progs': [[['set', 3, 1]], [['len']]]},
         {'cls': 'LRI', 'max': 2, 'on_miss': False, 'init': [[1, 0], [2, 0]], 'progs': [[['set', 3, 1]], [['contains', 1], ['contains', 3]]]},
     ]
 
-    def schedules_for(self, base, rng, systematic, nrandom):
+    def schedules_for(self, base, rng, systematic, nrandom, dense=False):
         """yield cases = base + schedule"""
         n = len(base['progs'])
         if systematic:
@@ -632,7 +645,7 @@ class C03(Property):
                 probe = dict(base, sched={'kind': 'preempt', 'first': first, 'points': []})
                 obs = self.impl(probe)
                 steps = obs.get('steps', 0)
-                stride = 1 if self.thorough else max(1, steps // 35)
+                stride = 1 if self.thorough else max(1, steps // (60 if dense else 35))
                 off = 0 if self.thorough else self.rng.randrange(stride)
                 for p in range(off, steps, stride):
                     yield dict(base, sched={'kind': 'preempt', 'first': first, 'points': [p]})
@@ -647,9 +660,16 @@ class C03(Property):
     def cases(self, budget_s):
         rng = self.rng
         self.warm_up()
+        # (1) fixed conflict programs: EVERY single pre-emption placement (thorough: also pairs) + random walks
         for base in self.FIXED:
-            yield from self.schedules_for(base, rng, systematic=True, nrandom=10 if not self.thorough else 60)
-        n = 60 if not self.thorough else 1500
+            yield from self.schedules_for(base, rng, systematic=True, nrandom=10 if not self.thorough else 60,
+                                          dense=True)
+        # (2) every public method of the translator's table as the victim of a pre-emption at its k-th own
+        #     instruction, against an evicting / deleting / clearing second thread
+        table = [(r['cls'], r['name']) for r in (self._analysis.rows() if getattr(self, '_analysis', None) else [])]
+        yield from self.focus_cases(table, full=self.thorough, stride=1 if self.thorough else 3)
+        # (3) random programs (2-3 threads) x sticky random walks
+        n = 150 if not self.thorough else 3000
         for i in range(n):
             base = self.rand_programs(rng, rng.choice([2, 2, 3]), 2 if i % 3 else 3)
             yield from self.schedules_for(base, rng, systematic=(self.thorough and i % 10 == 0),
@@ -665,31 +685,36 @@ class C03(Property):
                 '__eq__': [['eq', [[k, 0]]]], '__ne__': [['ne', [[k, 0]]]], '__contains__': [['contains', k]],
                 '__len__': [['len']], 'keys': [['keys']], '__iter__': [['keys']]}.get(name, [])
 
-    def focus_bases(self, flagged):
+    def focus_bases(self, flagged, full=True):
         """(base case, victim tid, method name) for every method in `flagged` = [(cls, name)]"""
         out = []
         for cls, name in flagged:
             classes = [cls] if cls == 'LRU' else ['LRI', 'LRU']
             oms = [False, True] if name in ('__getitem__', 'get', 'setdefault') else [False]
             for c in classes:
-                for m in (1, 2, 3):
+                if c == 'LRU' and cls == 'LRI' and name in self._analysis.classes.get('LRU', {}):
+                    continue        # overridden: LRU has its own row
+                for m in ((1, 2, 3) if full else (2,)):
                     init = [[k, 0] for k in range(1, m + 1)]
                     fresh = [[5 + i, 1] for i in range(m)]
-                    for om in oms:
-                        for key in sorted({1, m, 4}):
+                    for om in (oms if full else oms[-1:]):
+                        for key in (sorted({1, m, 4}) if full else [1]):
                             for vop in self.ops_for(name, key):
                                 advs = [[['update', fresh]], [['set', p[0], p[1]] for p in fresh], [['del', key]],
                                         [['clear']], [['set', key, 9]], [['popitem']], [vop]]
+                                if not full:
+                                    advs = [advs[0], advs[2], advs[3]]
                                 for adv in advs:
                                     out.append(({'cls': c, 'max': m, 'on_miss': om, 'init': init,
                                                  'progs': [[vop], adv]}, 0, name))
         return out
 
-    def focus_cases(self, flagged, max_k=400):
-        live = self.focus_bases(flagged)
+    def focus_cases(self, flagged, max_k=400, full=True, stride=1):
+        live = self.focus_bases(flagged, full)
         self.rng.shuffle(live)
         live.sort(key=lambda b: b[0]['max'])          # boundary size first
-        for k in range(max_k):
+        off = self.rng.randrange(stride) if stride > 1 else 0
+        for k in range(off, max_k, stride):
             nxt = []
             for base, victim, fn in live:
                 case = dict(base, sched={'kind': 'focus', 'victim': victim, 'fn': fn, 'k': k})
@@ -930,6 +955,11 @@ class C03(Property):
                 toks.append('D:%d:%d' % (op[1], op[2]))
             elif k == 'update':
                 toks.append('u:' + self._ptxt(op[1]))
+            elif k in ('updated', 'updatec'):   # a mapping yields each key once: first position, last value
+                last = dict((a, b) for a, b in op[1])
+                toks.append('u:' + self._ptxt([[a, last[a]] for a in dict.fromkeys(a for a, _ in op[1])]))
+            elif k == 'copyp':
+                toks.append('K')
             elif k == 'popitem':
                 toks.append('I')
             elif k == 'clear':
@@ -940,8 +970,9 @@ class C03(Property):
                 toks.append('e:' + self._ptxt(op[1]))
             elif k == 'ne':
                 toks.append('n:' + self._ptxt(op[1]))
-            elif k == 'ior':
-                toks.append('i:' + self._ptxt(op[1]))
+            elif k == 'ior':                    # `cache |= dict(pairs)`: the dict yields each key once
+                last = dict((a, b) for a, b in op[1])
+                toks.append('i:' + self._ptxt([[a, last[a]] for a in dict.fromkeys(a for a, _ in op[1])]))
             else:
                 return None
         return ' '.join(toks)
@@ -981,6 +1012,8 @@ class C03(Property):
                     outs.append('f')
                 elif isinstance(v, int):
                     outs.append('v%d' % v)
+                elif op[0] == 'copyp' and isinstance(v, list) and len(v) == 4:
+                    outs.append('K%s/%s/%s/%s' % (self._ptxt(v[0]), v[1], v[2], self._order_txt(v[3])))
                 elif op[0] == 'popitem' and isinstance(v, list) and len(v) == 2 and all(isinstance(x, int) for x in v):
                     outs.append('p%d.%d' % (v[0], v[1]))
                 elif isinstance(v, list) and all(isinstance(x, list) and len(x) == 2 and
@@ -988,11 +1021,15 @@ class C03(Property):
                     outs.append('L' + self._ptxt(v))
                 else:       # a value no model run can produce (e.g. the repr of a private sentinel)
                     outs.append('X' + repr(v).replace(' ', ''))
-        order = ';'.join(('+'.join(str(x) for x in g) or '-') if isinstance(g, list) else str(g) for g in obs.get('order', []))
+        order = self._order_txt(obs.get('order', []))
         txt = (','.join(outs) or '-') + '|' + self._ptxt(obs.get('final', [])) + '|' + order
         if obs.get('lockset'):
             txt += ' LOCKSET-VIOLATION %r' % (obs['lockset'][:3],)
         return txt
+
+    @staticmethod
+    def _order_txt(order):
+        return ';'.join(('+'.join(str(x) for x in g) or '-') if isinstance(g, list) else str(g) for g in order)
 
     def shrink(self, case):
         progs = case['progs']
